@@ -64,3 +64,12 @@ Definition clone_f (ok : bool) (w : world) (r : region) := guard ok (clone w r).
 Definition receive_f (ok : bool) (w : world) (r : region) := guard ok (receive w r).
 (* what the failing-mmap scenario must show for a region of `len` bytes: a panic, unless nothing is mapped at all *)
 Definition mmapfail_panics (len : Z) : bool := negb (len =? 0).
+
+(* Clone::clone_from is the default one: `*self = source.clone()` - a fresh handle on the SOURCE's object is made (dup, mmap), then the
+   old value of the destination is dropped (munmap, close).  Nothing is written to any object. *)
+Definition clone_from (w : world) (d s : region) : world * region * list call :=
+  let '(w1, r, cs1) := clone w s in
+  let '(w2, cs2) := drop w1 d in (w2, r, cs1 ++ cs2).
+
+(* a region sent through a channel and received: the sender's handle is unchanged; the receiver maps the object at its fstat size *)
+Definition transfer (w : world) (r : region) : world * region * list call := receive w r.
